@@ -398,3 +398,530 @@ Proof.
   rewrite Forall_forall in Hall. destruct (Hall a Ha) as (H1 & H2 & H3).
   repeat split; try assumption. lia.
 Qed.
+
+(* ================================================================== extraction (C15_coordinates) *)
+
+(* ------------------------------------------------------------------ lists by index *)
+Definition znth (l : list Z) (i : Z) : Z := nth (Z.to_nat i) l 0.
+
+Lemma list_ext (a b : list Z) :
+  zlen a = zlen b -> (forall i, 0 <= i < zlen a -> znth a i = znth b i) -> a = b.
+Proof.
+  intros Hl H. apply nth_ext with (d := 0) (d' := 0); [unfold zlen in Hl; lia|].
+  intros k Hk. specialize (H (Z.of_nat k)). unfold znth in H. rewrite Nat2Z.id in H.
+  apply H. unfold zlen. lia.
+Qed.
+
+Lemma nth_firstn_lt {A} (d : A) : forall k l n, (n < k)%nat -> nth n (firstn k l) d = nth n l d.
+Proof.
+  induction k as [|k IH]; intros l n H; [lia|].
+  destruct l as [|x l]; [destruct n; reflexivity|].
+  destruct n as [|n]; cbn; [reflexivity|apply IH; lia].
+Qed.
+Lemma nth_skipn_add {A} (d : A) : forall k l n, nth n (skipn k l) d = nth (k + n) l d.
+Proof.
+  induction k as [|k IH]; intros l n; [reflexivity|].
+  destruct l as [|x l]; [destruct n; reflexivity|]. cbn. apply IH.
+Qed.
+
+Lemma zlen_app {A} (a b : list A) : zlen (a ++ b) = zlen a + zlen b.
+Proof. unfold zlen. rewrite app_length. lia. Qed.
+Lemma zlen_rev {A} (a : list A) : zlen (rev a) = zlen a.
+Proof. unfold zlen. rewrite rev_length. reflexivity. Qed.
+Lemma zlen_map {A B} (f : A -> B) (a : list A) : zlen (map f a) = zlen a.
+Proof. unfold zlen. rewrite map_length. reflexivity. Qed.
+Lemma zlen_slice {A} (l : list A) a b : 0 <= a -> a <= b -> b <= zlen l -> zlen (slice l a b) = b - a.
+Proof. unfold slice, zlen. rewrite firstn_length, skipn_length. lia. Qed.
+Lemma zlen_revcomp l : zlen (revcomp l) = zlen l.
+Proof. unfold revcomp. rewrite zlen_rev, zlen_map. reflexivity. Qed.
+
+Lemma znth_slice l a b i : 0 <= a -> 0 <= i < b - a -> znth (slice l a b) i = znth l (a + i).
+Proof.
+  intros Ha Hi. unfold znth, slice. rewrite nth_firstn_lt by lia. rewrite nth_skipn_add. f_equal. lia.
+Qed.
+Lemma znth_app1 a b i : 0 <= i < zlen a -> znth (a ++ b) i = znth a i.
+Proof. intros Hi. unfold znth. apply app_nth1. unfold zlen in Hi. lia. Qed.
+Lemma znth_app2 a b i : zlen a <= i -> znth (a ++ b) i = znth b (i - zlen a).
+Proof.
+  intros Hi. unfold znth, zlen in *. rewrite app_nth2 by lia. f_equal. lia.
+Qed.
+Lemma znth_rev l i : 0 <= i < zlen l -> znth (rev l) i = znth l (zlen l - 1 - i).
+Proof.
+  intros Hi. unfold znth, zlen in *. rewrite rev_nth by lia. f_equal. lia.
+Qed.
+Lemma znth_map f l i : 0 <= i < zlen l -> znth (map f l) i = f (znth l i).
+Proof.
+  intros Hi. unfold znth, zlen in *. rewrite nth_indep with (d' := f 0) by (rewrite map_length; lia).
+  apply map_nth.
+Qed.
+Lemma znth_revcomp l i : 0 <= i < zlen l -> znth (revcomp l) i = comp (znth l (zlen l - 1 - i)).
+Proof.
+  intros Hi. unfold revcomp. rewrite znth_rev by (rewrite zlen_map; exact Hi).
+  rewrite zlen_map. apply znth_map. lia.
+Qed.
+
+(* ------------------------------------------------------------------ the chunk of the genome *)
+Definition wrap_pos (N z : Z) : Z := if z <? 0 then z + N else z.
+
+Definition window_ok (N off end_ : Z) : Prop :=
+  (0 <= off /\ off <= end_ /\ end_ <= N) \/ (- N <= off /\ off < 0 /\ 0 <= end_ /\ end_ <= N).
+
+Lemma skipn_slice {A} (l : list A) a : 0 <= a <= zlen l -> skipn (Z.to_nat a) l = slice l a (zlen l).
+Proof.
+  intros Ha. unfold slice. rewrite firstn_all2; [reflexivity|]. rewrite skipn_length. unfold zlen in *. lia.
+Qed.
+Lemma firstn_slice {A} (l : list A) b : firstn (Z.to_nat b) l = slice l 0 b.
+Proof. unfold slice. cbn [Z.to_nat skipn]. rewrite Z.sub_0_r. reflexivity. Qed.
+
+Lemma zlen_chunk g off end_ : window_ok (zlen g) off end_ -> zlen (chunk g off end_) = end_ - off.
+Proof.
+  intros Hw. unfold chunk. destruct (0 <=? off) eqn:Ho.
+  - destruct Hw as [H|H]; [|lia]. apply zlen_slice; lia.
+  - destruct Hw as [H|H]; [lia|]. rewrite skipn_slice by lia. rewrite firstn_slice.
+    rewrite zlen_app, !zlen_slice by lia. lia.
+Qed.
+
+Lemma znth_chunk g off end_ i : window_ok (zlen g) off end_ -> 0 <= i < end_ - off ->
+  znth (chunk g off end_) i = znth g (wrap_pos (zlen g) (off + i)).
+Proof.
+  intros Hw Hi. unfold chunk, wrap_pos. destruct (0 <=? off) eqn:Ho.
+  - destruct Hw as [H|H]; [|lia]. rewrite znth_slice by lia.
+    destruct (off + i <? 0) eqn:Hn; [lia|reflexivity].
+  - destruct Hw as [H|H]; [lia|]. rewrite skipn_slice by lia. rewrite firstn_slice.
+    destruct (off + i <? 0) eqn:Hn.
+    + rewrite znth_app1 by (rewrite zlen_slice; lia). rewrite znth_slice by lia. f_equal. lia.
+    + rewrite znth_app2 by (rewrite zlen_slice; lia). rewrite zlen_slice by lia.
+      rewrite znth_slice by lia. f_equal. lia.
+Qed.
+
+(* ------------------------------------------------------------------ the shape of a wrapped location *)
+Lemma wrap_end x len N : 0 < N -> 1 <= len <= N ->
+  (x + len - 1 + N) mod N + 1 =
+  if (x + N) mod N + len <=? N then (x + N) mod N + len else (x + N) mod N + len - N.
+Proof.
+  intros HN Hlen.
+  pose proof (Z.div_mod (x + N) N ltac:(lia)) as Hd.
+  pose proof (Z.mod_pos_bound (x + N) N HN) as Hb.
+  set (r := (x + N) mod N) in *. set (q := (x + N) / N) in *.
+  destruct (r + len <=? N) eqn:Hc.
+  - assert (H : r + len - 1 = (x + len - 1 + N) mod N); [|lia].
+    apply Z.mod_unique with (q := q); lia.
+  - assert (H : r + len - 1 - N = (x + len - 1 + N) mod N); [|lia].
+    apply Z.mod_unique with (q := q + 1); lia.
+Qed.
+
+Definition ring_loc (N x' len direction : Z) : loc :=
+  if x' + len <=? N then [mkPart x' (x' + len) direction]
+  else if direction =? -1 then [mkPart 0 (x' + len - N) direction; mkPart x' N direction]
+  else [mkPart x' N direction; mkPart 0 (x' + len - N) direction].
+
+Lemma orf_location_shape direction offset n N s e :
+  (direction = 1 \/ direction = -1) -> 0 < N -> s <= e -> e - s + 1 <= N ->
+  let x := if direction =? 1 then s + offset else n + offset - e - 1 in
+  orf_location direction offset n (Some N) (s, e) = ring_loc N ((x + N) mod N) (e - s + 1) direction.
+Proof.
+  intros Hdir HN Hse Hlen. cbn zeta. unfold orf_location, ring_loc.
+  destruct Hdir as [-> | ->]; cbn [Z.eqb Pos.eqb].
+  - replace (e + offset + 1 - 1 + N) with ((s + offset) + (e - s + 1) - 1 + N) by lia.
+    rewrite wrap_end by lia.
+    pose proof (Z.mod_pos_bound (s + offset + N) N HN) as Hb.
+    destruct ((s + offset + N) mod N + (e - s + 1) <=? N) eqn:Hc.
+    + destruct ((s + offset + N) mod N + (e - s + 1) <=? (s + offset + N) mod N) eqn:Hc2; [lia|reflexivity].
+    + destruct ((s + offset + N) mod N + (e - s + 1) - N <=? (s + offset + N) mod N) eqn:Hc2; [reflexivity|lia].
+  - replace (n + offset - s - 1 + N) with ((n + offset - e - 1) + (e - s + 1) - 1 + N) by lia.
+    rewrite wrap_end by lia.
+    pose proof (Z.mod_pos_bound (n + offset - e - 1 + N) N HN) as Hb.
+    destruct ((n + offset - e - 1 + N) mod N + (e - s + 1) <=? N) eqn:Hc.
+    + destruct ((n + offset - e - 1 + N) mod N + (e - s + 1) <=? (n + offset - e - 1 + N) mod N) eqn:Hc2; [lia|reflexivity].
+    + destruct ((n + offset - e - 1 + N) mod N + (e - s + 1) - N <=? (n + offset - e - 1 + N) mod N) eqn:Hc2; [reflexivity|lia].
+Qed.
+
+(* for -N <= x < N the wrapped start is x or x + N *)
+Lemma mod_wrap x N : 0 < N -> - N <= x < N -> (x + N) mod N = wrap_pos N x.
+Proof.
+  intros HN Hx. unfold wrap_pos. destruct (x <? 0) eqn:Hc.
+  - symmetry. apply Z.mod_unique with (q := 0); lia.
+  - symmetry. apply Z.mod_unique with (q := 1); lia.
+Qed.
+
+
+Lemma extract_single g p : extract g [p] = extract_part g p.
+Proof. unfold extract. cbn [flat_map]. apply app_nil_r. Qed.
+Lemma extract_two g p q : extract g [p; q] = extract_part g p ++ extract_part g q.
+Proof. unfold extract. cbn [flat_map]. rewrite app_nil_r. reflexivity. Qed.
+
+(* extraction of a (possibly wrapped) forward location: base i is genome base x' + i around the ring *)
+Lemma extract_ring_fwd g x' len :
+  0 <= x' < zlen g -> 1 <= len <= zlen g ->
+  zlen (extract g (ring_loc (zlen g) x' len 1)) = len /\
+  forall i, 0 <= i < len ->
+    znth (extract g (ring_loc (zlen g) x' len 1)) i =
+    znth g (if x' + i <? zlen g then x' + i else x' + i - zlen g).
+Proof.
+  intros Hx Hlen. unfold ring_loc. destruct (x' + len <=? zlen g) eqn:Hc.
+  - rewrite extract_single. unfold extract_part. cbn [ps pe pst Z.eqb]. split; [rewrite zlen_slice by lia; lia|].
+    intros i Hi. rewrite znth_slice by lia. destruct (x' + i <? zlen g) eqn:Hn; [reflexivity|lia].
+  - cbn [Z.eqb]. rewrite extract_two. unfold extract_part. cbn [ps pe pst Z.eqb].
+    split; [rewrite zlen_app, !zlen_slice by lia; lia|].
+    intros i Hi. destruct (x' + i <? zlen g) eqn:Hn.
+    + rewrite znth_app1 by (rewrite zlen_slice; lia). apply znth_slice; lia.
+    + rewrite znth_app2 by (rewrite zlen_slice; lia). rewrite zlen_slice by lia.
+      rewrite znth_slice by lia. f_equal. lia.
+Qed.
+
+(* the same on the reverse strand: base i is the complement of genome base x' + len - 1 - i *)
+Lemma extract_ring_rev g x' len :
+  0 <= x' < zlen g -> 1 <= len <= zlen g ->
+  zlen (extract g (ring_loc (zlen g) x' len (-1))) = len /\
+  forall i, 0 <= i < len ->
+    znth (extract g (ring_loc (zlen g) x' len (-1))) i =
+    comp (znth g (let z := x' + len - 1 - i in if z <? zlen g then z else z - zlen g)).
+Proof.
+  intros Hx Hlen. unfold ring_loc. cbn zeta. destruct (x' + len <=? zlen g) eqn:Hc.
+  - rewrite extract_single. unfold extract_part. cbn [ps pe pst Z.eqb Pos.eqb].
+    split; [rewrite zlen_revcomp, zlen_slice by lia; lia|].
+    intros i Hi. rewrite znth_revcomp by (rewrite zlen_slice; lia). rewrite zlen_slice by lia.
+    rewrite znth_slice by lia. destruct (x' + len - 1 - i <? zlen g) eqn:Hn; [f_equal; f_equal; lia|lia].
+  - cbn [Z.eqb Pos.eqb]. rewrite extract_two. unfold extract_part. cbn [ps pe pst Z.eqb Pos.eqb].
+    split; [rewrite zlen_app, !zlen_revcomp, !zlen_slice by lia; lia|].
+    intros i Hi. destruct (x' + len - 1 - i <? zlen g) eqn:Hn.
+    + rewrite znth_app2 by (rewrite zlen_revcomp, zlen_slice; lia).
+      rewrite zlen_revcomp, zlen_slice by lia.
+      rewrite znth_revcomp by (rewrite zlen_slice; lia). rewrite zlen_slice by lia.
+      rewrite znth_slice by lia. f_equal. f_equal. lia.
+    + rewrite znth_app1 by (rewrite zlen_revcomp, zlen_slice; lia).
+      rewrite znth_revcomp by (rewrite zlen_slice; lia). rewrite zlen_slice by lia.
+      rewrite znth_slice by lia. f_equal. f_equal. lia.
+Qed.
+
+(* MAIN: on a ring.  For every genome, every window of it (also one starting before the origin),
+   both strands, and every stretch [s, e] of the window text not longer than the record: the location
+   computed by scan_orfs for (s, e), extracted from the genome, is exactly that stretch of the text. *)
+Lemma extract_orf_ring g off end_ direction s e :
+  window_ok (zlen g) off end_ -> (direction = 1 \/ direction = -1) ->
+  0 <= s -> s <= e -> e < end_ - off -> e - s + 1 <= zlen g ->
+  extract g (orf_location direction off (zlen (window g off end_ direction)) (Some (zlen g)) (s, e)) =
+  slice (window g off end_ direction) s (e + 1).
+Proof.
+  intros Hw Hdir Hs Hse He Hlen.
+  assert (HN : 0 < zlen g) by lia.
+  pose proof (zlen_chunk g off end_ Hw) as Hcl.
+  assert (Hn : zlen (window g off end_ direction) = end_ - off).
+  { unfold window. destruct (direction =? -1); [rewrite zlen_revcomp|]; exact Hcl. }
+  rewrite Hn. rewrite (orf_location_shape direction off (end_ - off) (zlen g) s e Hdir HN Hse Hlen).
+  assert (Hoff : - zlen g <= off /\ end_ <= zlen g) by (destruct Hw; lia).
+  destruct Hdir as [-> | ->]; cbn [Z.eqb Pos.eqb]; unfold window; cbn [Z.eqb Pos.eqb].
+  - rewrite mod_wrap by lia.
+    assert (Hx : 0 <= wrap_pos (zlen g) (s + off) < zlen g) by (unfold wrap_pos; destruct (s + off <? 0) eqn:E; lia).
+    destruct (extract_ring_fwd g (wrap_pos (zlen g) (s + off)) (e - s + 1) Hx ltac:(lia)) as [Hl Hnth].
+    apply list_ext.
+    + rewrite Hl, zlen_slice by lia. lia.
+    + rewrite Hl. intros i Hi. rewrite Hnth by exact Hi. rewrite znth_slice by lia.
+      rewrite znth_chunk by (try assumption; lia). f_equal.
+      unfold wrap_pos. destruct (s + off <? 0) eqn:H1; destruct (off + (s + i) <? 0) eqn:H2;
+        match goal with |- (if ?c then _ else _) = _ => destruct c eqn:H3 end; lia.
+  - rewrite mod_wrap by lia.
+    set (x := end_ - off + off - e - 1) in *.
+    assert (Hx : 0 <= wrap_pos (zlen g) x < zlen g) by (unfold wrap_pos, x; destruct (end_ - off + off - e - 1 <? 0) eqn:E; lia).
+    destruct (extract_ring_rev g (wrap_pos (zlen g) x) (e - s + 1) Hx ltac:(lia)) as [Hl Hnth].
+    apply list_ext.
+    + rewrite Hl, zlen_slice by (rewrite ?zlen_revcomp; lia). lia.
+    + rewrite Hl. intros i Hi. rewrite Hnth by exact Hi. rewrite znth_slice by lia.
+      rewrite znth_revcomp by lia. rewrite Hcl.
+      rewrite znth_chunk by (try assumption; lia). f_equal. f_equal. cbn zeta.
+      unfold wrap_pos, x. destruct (end_ - off + off - e - 1 <? 0) eqn:H1;
+        destruct (off + (end_ - off - 1 - (s + i)) <? 0) eqn:H2;
+        match goal with |- (if ?c then _ else _) = _ => destruct c eqn:H3 end; lia.
+Qed.
+
+(* on a line (no record length): window = genome[off:end_] *)
+Lemma extract_orf_line g off end_ direction s e :
+  0 <= off -> off <= end_ -> end_ <= zlen g -> (direction = 1 \/ direction = -1) ->
+  0 <= s -> s <= e -> e < end_ - off ->
+  extract g (orf_location direction off (zlen (window g off end_ direction)) None (s, e)) =
+  slice (window g off end_ direction) s (e + 1).
+Proof.
+  intros Ho Hoe He Hdir Hs Hse Hen.
+  assert (Hw : window_ok (zlen g) off end_) by (left; lia).
+  pose proof (zlen_chunk g off end_ Hw) as Hcl.
+  assert (Hn : zlen (window g off end_ direction) = end_ - off).
+  { unfold window. destruct (direction =? -1); [rewrite zlen_revcomp|]; exact Hcl. }
+  rewrite Hn. unfold orf_location, window.
+  destruct Hdir as [-> | ->]; cbn [Z.eqb Pos.eqb]; rewrite extract_single; unfold extract_part;
+    cbn [ps pe pst Z.eqb Pos.eqb].
+  - apply list_ext.
+    + rewrite !zlen_slice by lia. lia.
+    + rewrite zlen_slice by lia. intros i Hi. rewrite !znth_slice by lia.
+      rewrite znth_chunk by (try assumption; lia). f_equal. unfold wrap_pos.
+      destruct (off + (s + i) <? 0) eqn:H; lia.
+  - apply list_ext.
+    + rewrite zlen_revcomp, !zlen_slice by (rewrite ?zlen_revcomp; lia). lia.
+    + rewrite zlen_revcomp, zlen_slice by lia. intros i Hi.
+      rewrite znth_revcomp by (rewrite zlen_slice; lia). rewrite zlen_slice by lia.
+      rewrite !znth_slice by lia. rewrite znth_revcomp by lia. rewrite Hcl.
+      rewrite znth_chunk by (try assumption; lia). f_equal. f_equal. unfold wrap_pos.
+      destruct (off + (end_ - off - 1 - (s + i)) <? 0) eqn:H; lia.
+Qed.
+
+
+Lemma insert_by_In {A} (lt : A -> A -> bool) x y : forall l, In x (insert_by lt y l) <-> x = y \/ In x l.
+Proof.
+  induction l as [|z l IH]; cbn [insert_by].
+  - cbn. intuition.
+  - destruct (lt y z); cbn [In]; [intuition|]. rewrite IH. intuition.
+Qed.
+Lemma sort_by_In_acc {A} (lt : A -> A -> bool) x : forall l acc,
+  In x (fold_left (fun acc y => insert_by lt y acc) l acc) <-> In x l \/ In x acc.
+Proof.
+  induction l as [|y l IH]; intros acc; cbn [fold_left].
+  - cbn. intuition.
+  - rewrite IH, insert_by_In. cbn [In]. intuition.
+Qed.
+Lemma sort_by_In {A} (lt : A -> A -> bool) x l : In x (sort_by lt l) <-> In x l.
+Proof. unfold sort_by. rewrite sort_by_In_acc. cbn. intuition. Qed.
+
+Lemma kinds_nth_bound : forall k l x, nth_error (kinds l) k = Some x -> (3 * k + 3 <= length l)%nat.
+Proof.
+  induction k as [|k IH]; intros l x H.
+  - destruct l as [|a [|b [|c r]]]; cbn in H; try discriminate. cbn. lia.
+  - destruct l as [|a [|b [|c r]]]; cbn in H; try discriminate. apply IH in H. cbn [length]. lia.
+Qed.
+
+(* every ORF of a frame lies inside the text *)
+Lemma frame_orfs_bounds sequ frame minimum c : (frame <= 2)%nat ->
+  In c (frame_orfs sequ frame minimum) -> 0 <= fst c /\ fst c <= snd c /\ snd c < zlen sequ.
+Proof.
+  intros Hf Hin. apply frame_orfs_spec in Hin. destruct Hin as (s & e & Horf & -> & _).
+  destruct Horf as (Hse & _ & He & _). apply kinds_nth_bound in He. rewrite skipn_length in He.
+  unfold orf_coords, zlen. cbn [fst snd]. lia.
+Qed.
+
+(* C15_coordinates, extraction form, tied to scan_orfs: every location returned by scan_orfs for a window
+   of a circular genome (also a window starting before the origin; window not longer than the record)
+   comes from an ORF [a, b] of some frame of the upper-cased window text, and extracting the location
+   from the genome gives exactly the window text from a to b - the ORF, on the scanned strand. *)
+Lemma scan_orfs_extract_ring g off end_ direction minimum l :
+  window_ok (zlen g) off end_ -> end_ - off <= zlen g -> (direction = 1 \/ direction = -1) ->
+  In l (scan_orfs (window g off end_ direction) direction off minimum (Some (zlen g))) ->
+  exists frame a b, (frame <= 2)%nat /\
+    In (a, b) (frame_orfs (map upper (window g off end_ direction)) frame minimum) /\
+    0 <= a /\ a <= b /\ b < end_ - off /\
+    l = orf_location direction off (end_ - off) (Some (zlen g)) (a, b) /\
+    extract g l = slice (window g off end_ direction) a (b + 1).
+Proof.
+  intros Hw Hwl Hdir Hin. unfold scan_orfs in Hin. apply sort_by_In in Hin.
+  assert (Hn : zlen (window g off end_ direction) = end_ - off).
+  { pose proof (zlen_chunk g off end_ Hw) as Hcl. unfold window.
+    destruct (direction =? -1); [rewrite zlen_revcomp|]; exact Hcl. }
+  rewrite zlen_map, Hn in Hin.
+  apply in_flat_map in Hin. destruct Hin as (frame & Hframe & Hin).
+  apply in_map_iff in Hin. destruct Hin as ([a b] & Hl & Hc).
+  assert (Hf : (frame <= 2)%nat) by (cbn in Hframe; lia).
+  pose proof (frame_orfs_bounds _ _ _ _ Hf Hc) as Hb. rewrite zlen_map, Hn in Hb. cbn [fst snd] in Hb.
+  exists frame, a, b. repeat split; try assumption; try lia; [symmetry; exact Hl|].
+  subst l. rewrite <- Hn at 1. apply extract_orf_ring; try assumption; lia.
+Qed.
+
+Lemma scan_orfs_extract_line g off end_ direction minimum l :
+  0 <= off -> off <= end_ -> end_ <= zlen g -> (direction = 1 \/ direction = -1) ->
+  In l (scan_orfs (window g off end_ direction) direction off minimum None) ->
+  exists frame a b, (frame <= 2)%nat /\
+    In (a, b) (frame_orfs (map upper (window g off end_ direction)) frame minimum) /\
+    0 <= a /\ a <= b /\ b < end_ - off /\
+    extract g l = slice (window g off end_ direction) a (b + 1).
+Proof.
+  intros Ho Hoe He Hdir Hin. unfold scan_orfs in Hin. apply sort_by_In in Hin.
+  assert (Hw : window_ok (zlen g) off end_) by (left; lia).
+  assert (Hn : zlen (window g off end_ direction) = end_ - off).
+  { pose proof (zlen_chunk g off end_ Hw) as Hcl. unfold window.
+    destruct (direction =? -1); [rewrite zlen_revcomp|]; exact Hcl. }
+  rewrite zlen_map in Hin.
+  apply in_flat_map in Hin. destruct Hin as (frame & Hframe & Hin).
+  apply in_map_iff in Hin. destruct Hin as ([a b] & Hl & Hc).
+  assert (Hf : (frame <= 2)%nat) by (cbn in Hframe; lia).
+  pose proof (frame_orfs_bounds _ _ _ _ Hf Hc) as Hb. rewrite zlen_map, Hn in Hb. cbn [fst snd] in Hb.
+  exists frame, a, b. repeat split; try assumption; try lia.
+  subst l. apply extract_orf_line; try assumption; lia.
+Qed.
+
+(* the decidable ORF specification evaluated on implementation outputs is the Prop *)
+Lemma kind_is_spec ks j k : kind_is ks j k = true <-> nth_error ks j = Some k.
+Proof.
+  unfold kind_is. destruct (nth_error ks j) as [x|]; [|split; discriminate].
+  destruct x, k; cbn; split; intros H; try reflexivity; try discriminate; inversion H.
+Qed.
+
+Lemma is_orf_b_spec ks s e : is_orf_b ks s e = true <-> is_orf ks s e.
+Proof.
+  unfold is_orf_b, is_orf.
+  destruct (s <? e)%nat eqn:Hse; [|split; [discriminate|intros (H & _); apply Nat.ltb_ge in Hse; lia]].
+  apply Nat.ltb_lt in Hse.
+  destruct (kind_is ks s KStart) eqn:Hs;
+    [|split; [discriminate|intros (_ & H & _); apply kind_is_spec in H; congruence]].
+  destruct (kind_is ks e KStop) eqn:He;
+    [|split; [discriminate|intros (_ & _ & H & _); apply kind_is_spec in H; congruence]].
+  apply kind_is_spec in Hs. apply kind_is_spec in He.
+  destruct (forallb (fun j => negb (kind_is ks j KStop)) (seq (S s) (e - S s))) eqn:Hmid.
+  - rewrite forallb_forall in Hmid. rewrite forallb_forall. split.
+    + intros Hpre. repeat split; try assumption.
+      * intros j Hj Hk. specialize (Hmid j). rewrite in_seq in Hmid. specialize (Hmid ltac:(lia)).
+        apply kind_is_spec in Hk. rewrite Hk in Hmid. discriminate.
+      * intros j Hj Hk. specialize (Hpre j). rewrite in_seq in Hpre. specialize (Hpre ltac:(lia)).
+        apply kind_is_spec in Hk. rewrite Hk in Hpre. apply existsb_exists in Hpre.
+        destruct Hpre as (m & Hm & Hmk). rewrite in_seq in Hm. apply kind_is_spec in Hmk.
+        exists m. split; [lia|exact Hmk].
+    + intros (_ & _ & _ & _ & Hpre) j Hj. rewrite in_seq in Hj.
+      destruct (kind_is ks j KStart) eqn:Hk; [|reflexivity]. apply kind_is_spec in Hk.
+      destruct (Hpre j ltac:(lia) Hk) as (m & Hm & Hmk). apply existsb_exists.
+      exists m. split; [rewrite in_seq; lia|apply kind_is_spec; exact Hmk].
+  - split; [discriminate|]. intros (_ & _ & _ & Hno & _). exfalso.
+    assert (Hall : forallb (fun j => negb (kind_is ks j KStop)) (seq (S s) (e - S s)) = true); [|congruence].
+    apply forallb_forall. intros j Hj. rewrite in_seq in Hj.
+    destruct (kind_is ks j KStop) eqn:Hk; [|reflexivity]. apply kind_is_spec in Hk.
+    exfalso. apply (Hno j); [lia|exact Hk].
+Qed.
+
+Lemma orfs_spec_In ks s e : In (s, e) (orfs_spec ks) <-> is_orf ks s e.
+Proof.
+  unfold orfs_spec. rewrite filter_In, in_prod_iff, !in_seq. cbn [fst snd]. rewrite is_orf_b_spec.
+  split; [intros [_ H]; exact H|]. intros H. split; [|exact H].
+  destruct H as (Hse & Hs & He & _).
+  assert (e < length ks)%nat by (apply nth_error_Some; congruence). lia.
+Qed.
+
+(* hence the model's loop and the specification's enumeration report the same ORFs *)
+Lemma scan_kinds_orfs_spec ks s e : In (s, e) (scan_kinds ks 0 None) <-> In (s, e) (orfs_spec ks).
+Proof. rewrite scan_sound_complete, orfs_spec_In. reflexivity. Qed.
+
+
+(* ------------------------------------------------------------------ completeness of the gap search *)
+(* x is free: outside every gene shrunk by the padding on both sides *)
+Definition free (padding : Z) (genes : list (Z * Z)) (x : Z) : Prop :=
+  Forall (fun g => x < fst g + padding \/ snd g - padding <= x) genes.
+
+(* the areas before the minimum-length filter *)
+Definition raw_areas (start end_ : Z) (genes : list (Z * Z)) (padding : Z) : list (Z * Z) :=
+  let '(areas, last) := intergenic_go start end_ padding genes start [] in
+  if last <? end_ then areas ++ [(Z.max start last, end_)] else areas.
+
+Lemma find_intergenic_raw start end_ genes min_length padding a :
+  In a (find_intergenic_areas start end_ genes min_length padding) <->
+  In a (raw_areas start end_ genes padding) /\ min_length <= snd a - fst a.
+Proof.
+  unfold find_intergenic_areas, raw_areas.
+  destruct (intergenic_go start end_ padding genes start []) as [areas last].
+  rewrite filter_In. split; intros [H1 H2]; (split; [exact H1|lia]).
+Qed.
+
+Lemma go_cover start end_ padding : forall rest last acc, start <= last ->
+  let '(areas, last') := intergenic_go start end_ padding rest last acc in
+  (forall a, In a acc -> In a areas) /\ start <= last' /\
+  forall x, start <= x < end_ -> last <= x -> free padding rest x ->
+            (exists a, In a areas /\ fst a <= x < snd a) \/ last' <= x.
+Proof.
+  induction rest as [|[gs ge] rest IH]; intros last acc Hsl; cbn [intergenic_go].
+  - split; [auto|]. split; [exact Hsl|]. intros x _ Hx _. right. exact Hx.
+  - destruct (last <? gs + padding) eqn:Hgap.
+    + specialize (IH (Z.max last (ge - padding)) (acc ++ [(Z.max start last, Z.min end_ (gs + padding))]) ltac:(lia)).
+      destruct (intergenic_go start end_ padding rest (Z.max last (ge - padding))
+                              (acc ++ [(Z.max start last, Z.min end_ (gs + padding))])) as [areas last'].
+      destruct IH as (Hacc & Hs & Hcov). split; [intros a Ha; apply Hacc, in_or_app; left; exact Ha|].
+      split; [exact Hs|]. intros x Hx Hlx Hfree. inversion Hfree as [|g r Hg Hr]; subst. cbn [fst snd] in Hg.
+      destruct (Z_lt_ge_dec x (gs + padding)) as [Hlt|Hge].
+      * left. exists (Z.max start last, Z.min end_ (gs + padding)). split.
+        -- apply Hacc, in_or_app. right. left. reflexivity.
+        -- cbn [fst snd]. lia.
+      * apply Hcov; [exact Hx|lia|exact Hr].
+    + destruct ((gs <=? last) && (last <=? ge)) eqn:Hin.
+      * specialize (IH (Z.max last (ge - padding)) acc ltac:(lia)).
+        destruct (intergenic_go start end_ padding rest (Z.max last (ge - padding)) acc) as [areas last'].
+        destruct IH as (Hacc & Hs & Hcov). split; [exact Hacc|]. split; [exact Hs|].
+        intros x Hx Hlx Hfree. inversion Hfree as [|g r Hg Hr]; subst. cbn [fst snd] in Hg.
+        apply Hcov; [exact Hx|lia|exact Hr].
+      * specialize (IH last acc Hsl).
+        destruct (intergenic_go start end_ padding rest last acc) as [areas last'].
+        destruct IH as (Hacc & Hs & Hcov). split; [exact Hacc|]. split; [exact Hs|].
+        intros x Hx Hlx Hfree. inversion Hfree as [|g r Hg Hr]; subst.
+        apply Hcov; [exact Hx|exact Hlx|exact Hr].
+Qed.
+
+(* every free position of [start, end) lies in an area (before the length filter), for every gene list *)
+Lemma raw_areas_cover start end_ genes padding x :
+  start <= x < end_ -> free padding genes x ->
+  exists a, In a (raw_areas start end_ genes padding) /\ fst a <= x < snd a.
+Proof.
+  intros Hx Hfree. unfold raw_areas.
+  pose proof (go_cover start end_ padding genes start [] (Z.le_refl _)) as H.
+  destruct (intergenic_go start end_ padding genes start []) as [areas last].
+  destruct H as (_ & Hs & Hcov). destruct (Hcov x Hx ltac:(lia) Hfree) as [(a & Ha & Hin)|Hlast].
+  - exists a. split; [|exact Hin]. destruct (last <? end_); [apply in_or_app; left|]; exact Ha.
+  - destruct (last <? end_) eqn:Hle; [|lia].
+    exists (Z.max start last, end_). split; [apply in_or_app; right; left; reflexivity|]. cbn [fst snd]. lia.
+Qed.
+
+(* and every area consists of free positions of [start, end) when the genes are ordered by start *)
+Lemma go_free start end_ padding : 0 <= padding -> forall rest seen last acc,
+  start <= last -> Forall (fun g => snd g - padding <= last) seen -> starts_sorted rest ->
+  Forall (fun a => forall x, fst a <= x < snd a -> start <= x < end_ /\ free padding (seen ++ rest) x) acc ->
+  let '(areas, last') := intergenic_go start end_ padding rest last acc in
+  start <= last' /\ Forall (fun g => snd g - padding <= last') (seen ++ rest) /\
+  Forall (fun a => forall x, fst a <= x < snd a -> start <= x < end_ /\ free padding (seen ++ rest) x) areas.
+Proof.
+  intros Hpad. induction rest as [|[gs ge] rest IH]; intros seen last acc Hsl Hseen Hsorted Hacc.
+  - cbn [intergenic_go]. rewrite app_nil_r in *. split; [lia|]. split; assumption.
+  - cbn [intergenic_go]. destruct Hsorted as [Hfirst Hsorted].
+    assert (Happ : seen ++ (gs, ge) :: rest = (seen ++ [(gs, ge)]) ++ rest) by (rewrite <- app_assoc; reflexivity).
+    assert (Hseen' : forall l', last <= l' -> ge - padding <= l' ->
+                     Forall (fun g => snd g - padding <= l') (seen ++ [(gs, ge)])).
+    { intros l' H1 H2. apply Forall_app. split; [eapply Forall_impl; [|exact Hseen]; cbn; intros; lia|].
+      constructor; [cbn; lia|constructor]. }
+    destruct (last <? gs + padding) eqn:Hgap.
+    + specialize (IH (seen ++ [(gs, ge)]) (Z.max last (ge - padding))
+                     (acc ++ [(Z.max start last, Z.min end_ (gs + padding))])).
+      rewrite <- Happ in IH.
+      destruct (intergenic_go start end_ padding rest (Z.max last (ge - padding))
+                              (acc ++ [(Z.max start last, Z.min end_ (gs + padding))])) as [areas last'].
+      apply IH; try assumption; try lia; [apply Hseen'; lia|].
+      apply Forall_app. split; [exact Hacc|]. constructor; [|constructor].
+      cbn [fst snd]. intros x Hx. split; [lia|]. unfold free. apply Forall_app. split.
+      * eapply Forall_impl; [|exact Hseen]. cbn. intros g Hg. right. lia.
+      * constructor; [cbn [fst snd]; left; lia|].
+        eapply Forall_impl; [|exact Hfirst]. cbn [fst]. intros g Hg. left. lia.
+    + destruct ((gs <=? last) && (last <=? ge)) eqn:Hin.
+      * specialize (IH (seen ++ [(gs, ge)]) (Z.max last (ge - padding)) acc).
+        rewrite <- Happ in IH.
+        destruct (intergenic_go start end_ padding rest (Z.max last (ge - padding)) acc) as [areas last'].
+        apply IH; try assumption; try lia. apply Hseen'; lia.
+      * specialize (IH (seen ++ [(gs, ge)]) last acc).
+        rewrite <- Happ in IH.
+        destruct (intergenic_go start end_ padding rest last acc) as [areas last'].
+        apply IH; try assumption; try lia. apply Hseen'; lia.
+Qed.
+
+Lemma raw_areas_free start end_ genes padding a x :
+  0 <= padding -> starts_sorted genes -> In a (raw_areas start end_ genes padding) -> fst a <= x < snd a ->
+  start <= x < end_ /\ free padding genes x.
+Proof.
+  intros Hpad Hsorted Hin Hx. unfold raw_areas in Hin.
+  pose proof (go_free start end_ padding Hpad genes [] start [] (Z.le_refl _) (Forall_nil _) Hsorted (Forall_nil _)) as H.
+  destruct (intergenic_go start end_ padding genes start []) as [areas last].
+  cbn [app] in H. destruct H as (Hs & Hlast & Hareas). rewrite Forall_forall in Hareas.
+  destruct (last <? end_) eqn:Hle; [|exact (Hareas a Hin x Hx)].
+  apply in_app_or in Hin. destruct Hin as [Hin|[<-|[]]]; [exact (Hareas a Hin x Hx)|].
+  cbn [fst snd] in Hx. split; [lia|]. unfold free. eapply Forall_impl; [|exact Hlast].
+  cbn. intros g Hg. right. lia.
+Qed.
+
+(* completeness: a free stretch [a, b) of [start, end) that cannot be extended (the position before it and
+   the position after it are inside a shrunk gene or outside the range) and has the minimum length is
+   reported as it is, provided every area is itself closed in that way - which holds when every gene is longer
+   than twice the padding; stated here in the form that needs no such guard: every free position whose
+   area is long enough lies in a reported area, and reported areas are free *)
+Lemma find_intergenic_complete start end_ genes min_length padding x :
+  start <= x < end_ -> free padding genes x ->
+  exists a, In a (raw_areas start end_ genes padding) /\ fst a <= x < snd a /\
+            (min_length <= snd a - fst a -> In a (find_intergenic_areas start end_ genes min_length padding)).
+Proof.
+  intros Hx Hfree. destruct (raw_areas_cover start end_ genes padding x Hx Hfree) as (a & Ha & Hin).
+  exists a. split; [exact Ha|]. split; [exact Hin|]. intros Hmin. apply find_intergenic_raw. split; assumption.
+Qed.
